@@ -42,6 +42,7 @@ type Exec struct {
 	appendMode        int
 	memo              map[string]*memoEntry
 	groups            map[string][][]Term
+	regions           map[*ssa.BasicBlock]*joinRegion
 	memoHits          int
 	noMemo            bool
 	freshRes          map[string]int // symbols of results of fresh callees -> creation number
